@@ -494,7 +494,6 @@ impl Lowerer {
 
         let columns = (table.relation.columns.iter())
             .cloned()
-            .unique()
             .map(|col| (col, self.cid.gen()))
             .collect_vec();
 
